@@ -72,7 +72,8 @@ Proof.
 Qed.
 Print Assumptions C06_access.
 
-(** logfmt: one field per key=value pair (bare, quoted, bare key), text passed through from_string *)
+(** logfmt: one field per key=value pair (bare, quoted, bare key), text passed through from_string;
+    the pair without key and value that stands for "no pair at all" is not stored *)
 Theorem C06_logfmt_pairs : forall pairs,
   pairs <> [] -> forallb pair_ok pairs = true -> no_empty_before_last pairs = true ->
   logfmt_parse (join_with 32%N (map render_pair pairs)) = map pair_value pairs.
@@ -85,7 +86,8 @@ Theorem C06_logfmt_fields : forall from r inp,
   Ok (Some (fold_left (fun acc kv => match snd kv with
                                      | None => rput (fst kv) VNone acc
                                      | Some v => rput (fst kv) (from_string v) acc
-                                     end) (logfmt_parse (trim_end inp)) r)).
+                                     end)
+                      (List.filter (fun kv => negb (lf_empty_pair kv)) (logfmt_parse (trim_end inp))) r)).
 Proof. exact logfmt_op_fields. Qed.
 Print Assumptions C06_logfmt_fields.
 
